@@ -1421,28 +1421,83 @@ Theorem leader_log_shape_with_snapshots_partial :
 Proof. exact Raft.MemberSnapLeader.leader_log_shape_snap. Qed.
 Print Assumptions leader_log_shape_with_snapshots_partial.
 
+(* ---------------------------------------------------------------- round 11: three clauses over the combined alphabet *)
+From BLB Require Raft.SnapMetaPass Raft.MemberSnapSystem.
+
+(* [FULL] node level, every event, every crash point: each InstallSnap a node emits in an event carries the snapshot metadata (index, term,
+   membership) the node held at the start of the event, and the snapshot metadata of a node changes only through SnapshotDone and
+   through the delivery of an InstallSnap, to the metadata named by that event *)
+Theorem emitted_install_snapshot_carries_own_metadata :
+  forall s ev k crashed st s',
+    run_event_crash (settle s) ev k = Ret (crashed, st, s') ->
+    Forall (Raft.SnapMetaPass.isqc (p_snap (n_p s))) (n_msgs s') /\
+    (p_snap (n_p s') = p_snap (n_p s) \/ p_snap (n_p s') = Raft.SnapMetaPass.alt_of (p_snap (n_p s)) ev).
+Proof. exact Raft.SnapMetaPass.snapshot_meta_step. Qed.
+Print Assumptions emitted_install_snapshot_carries_own_metadata.
+
+(* [PARTIAL] clause 1, election safety over the COMBINED alphabet cstep, no premise on configurations: membership changes and snapshots in
+   one run.  Alphabet: any number of nodes from initial states; every event of Core.run_event on any node with a crash after any
+   durable mutation followed by newCore: bootstrap with the one membership bm, delivery of any message ever sent (InstallSnap
+   included) any number of times or never, ticks, proposals without configuration entries, AddNode of another node, RemoveNode,
+   SnapshotDone as fsm_loop.go issues it (an applied position with its term, and the membership the state machine holds at that
+   position, which is the configuration of the store cut at the snapshot index), restarts.  Two nodes recorded as leader of the
+   same term are the same node.  PARTIAL because of ONE restriction on deliveries: an InstallSnap is not delivered to a node
+   that is leader at that moment (such a node ignores it or raft.go panics; the case is not proved) *)
+Theorem election_safety_combined :
+  forall bm be, NoDup bm ->
+  forall a0 a sched,
+    minitS a0 -> run asys sys_event (Raft.MemberSnapSystem.cstep bm be) a0 sched a ->
+    forall t x y, In (t, x) (sy_hist (fst a)) -> In (t, y) (sy_hist (fst a)) -> x = y.
+Proof. exact Raft.MemberSnapSystem.election_safety_combined_sys. Qed.
+Print Assumptions election_safety_combined.
+
+(* [PARTIAL] clause 3, log matching over the combined alphabet cstep, on logical logs: there is a ghost assignment Cf fitting the state (every
+   store has the shape of its snapshot over the ghost prefix, and the snapshot metadata carries the configuration of the prefix it
+   covers) such that two entries of equal index and term in the logical logs (ghost prefix followed by physical log) of two
+   nodes are at the same position and the logs agree up to it.  PARTIAL: same single restriction as election_safety_combined *)
+Theorem log_matching_combined :
+  forall bm be, NoDup bm ->
+  forall a0 a sched,
+    minitS a0 -> run asys sys_event (Raft.MemberSnapSystem.cstep bm be) a0 sched a ->
+    exists Cf, Raft.MemberSnapSystem.fitsC a Cf /\
+      forall x y k k' e e',
+        In x (sy_nodes (fst a)) -> In y (sy_nodes (fst a)) ->
+        nth_error (Raft.MemberSnapSystem.llogC Cf x) k = Some e -> nth_error (Raft.MemberSnapSystem.llogC Cf y) k' = Some e' ->
+        e_index e = e_index e' -> e_term e = e_term e' ->
+        k = k' /\ firstn (Datatypes.S k) (Raft.MemberSnapSystem.llogC Cf x) = firstn (Datatypes.S k) (Raft.MemberSnapSystem.llogC Cf y).
+Proof. exact Raft.MemberSnapSystem.log_matching_combined_sys. Qed.
+Print Assumptions log_matching_combined.
+
+(* [PARTIAL] clause 2, leader completeness over the combined alphabet cstep, on logical logs: whatever any node has committed at any moment
+   of a run is in the logical log of every leader of a later term at any later moment, under per-configuration quorums that
+   change along the run and across installed snapshots.  PARTIAL: same single restriction as election_safety_combined *)
+Theorem leader_completeness_combined :
+  forall bm be, NoDup bm ->
+  forall a0 a1 a2 sched1 sched2,
+    minitS a0 -> run asys sys_event (Raft.MemberSnapSystem.cstep bm be) a0 sched1 a1 ->
+    run asys sys_event (Raft.MemberSnapSystem.cstep bm be) a1 sched2 a2 ->
+    exists Cf1 Cf2, Raft.MemberSnapSystem.fitsC a1 Cf1 /\ Raft.MemberSnapSystem.fitsC a2 Cf2 /\
+      forall x b,
+        In x (sy_nodes (fst a1)) -> In b (sy_nodes (fst a2)) -> n_role b = Leader -> p_term (n_p x) < p_term (n_p b) ->
+        (N.to_nat (n_commit x) <= length (Raft.MemberSnapSystem.llogC Cf1 x))%nat /\
+        firstn (N.to_nat (n_commit x)) (Raft.MemberSnapSystem.llogC Cf2 b) = firstn (N.to_nat (n_commit x)) (Raft.MemberSnapSystem.llogC Cf1 x).
+Proof. exact Raft.MemberSnapSystem.leader_completeness_combined_sys. Qed.
+Print Assumptions leader_completeness_combined.
+
 (* NOT YET PROVED (statements kept visible; listed in props/C02.json not_yet_proved):
-   the four clauses over the COMBINED alphabet (membership changes AND snapshots in one run).  They hold for fixed membership
-   with snapshots (round 5, alphabet sstepS) and for arbitrary single-server membership changes without snapshots (round 8,
-   alphabet mstepS).  Over the combined alphabet: invariant (a) over logical logs (round 9), election safety GIVEN adjP,
-   counted_votes_come_from_members, leader_acks_come_from_members; and (round 10) the ingredients of the induction on the
-   virtual nodes: the abstract step of the invariant MS (membership_invariant_abstract_step_partial), the node pass for every
-   event on nodes with snapshots including AddNode and RemoveNode with the refined commit evidence
-   (step_summary_membership_change_with_snapshots_partial, snapshot_events_as_abstract_steps_partial), the link between the
-   configuration of the durable state and of the logical log (configuration_of_logical_log_partial) and the shape of a
-   continuing leader's log (leader_log_shape_with_snapshots_partial).
-   OPEN: the system-level assembly, hence adjP, leader completeness, log matching and state machine safety over the combined
-   alphabet.  Missing, exactly: (1) the invariant MSI = exists ghost prefixes Cf, virtual soup S and the ghosts of MS, such that MS
-   holds of the virtual system, EM of the real one, every store has the shape of its ghost prefix with shapeC, the real soup
-   maps into S, and every InstallSnap in the real soup carries the configuration of the covered prefix of a record of its term;
-   (2) injection of the stand-in AppEnts into the virtual soup for MS (round 5 has it for the fixed-membership invariants);
-   (3) the completeness premises premS, premV re-derived from MS (ms_cn, committedM_kept in place of c_node, committed_kept);
-   (4) preservation of shapeC: generic events by the no-truncation lemma of the abstract step, SnapshotDone by the side condition
-   that the metadata names the configuration of the covered prefix, InstallSnap by log matching of the post-state plus the
-   provenance of the carried configuration, which needs one more node pass (an emitted InstallSnap carries the emitter's
-   snapshot metadata); (5) EM of the virtual post-state from EM of the real one; (6) initial states, runs, the four theorems
-   and their instance on the 20-step combined run.
-   Side conditions of mstepS that are not hypotheses of raft.go: proposals carry no configuration entries (raft.go proposes them
+   over the COMBINED alphabet cstep (membership changes AND snapshots in one run; round 11, Raft/MemberSnapSystem.v) election safety
+   without premise, log matching and leader completeness are proved (election_safety_combined, log_matching_combined,
+   leader_completeness_combined).  OPEN:
+   (1) the one restriction of cstep on deliveries: an InstallSnap is not delivered to a node that is leader at that moment.  The
+       missing case is node level: such a node, if it ends the event as leader of the same term, has ignored the message (lower term)
+       so that its logical log is unchanged; the argument (entries of a would-be suffix come from the sender's record, whose terms
+       are below the leader's term) is written down in notes/C02.md but not proved;
+   (2) state machine safety over the combined alphabet: needs the applied-entries lemma (entries handed to the state machine lie in
+       the own logical log below the commit index) for cstep, i.e. round 5's applS_step extended by AddNode / RemoveNode, and then
+       committedM_comparable on the virtual system as in round 8;
+   (3) the instance of the three theorems on the 20-step combined run of Raft/CombinedExample.v (the run is a run of kstep; it has
+       to be replayed as a run of cstep, which needs the side conditions evresC at each step, SnapshotDone included).
+   Side conditions of cstep that are not hypotheses of raft.go: proposals carry no configuration entries (raft.go proposes them
    only through AddNode / RemoveNode), nobody asks a node to add itself, one bootstrap membership without duplicates.
    On the real code all four clauses are evaluated after every event by the monitors of the Go simulation, whose random
    schedules mix snapshots, trims, AddNode and RemoveNode. *)
